@@ -531,12 +531,11 @@ class MementoFunction(MementoFunctionBase):
             rule.rule_hash = hash_code
             if hash_code is not None:
                 sha256.update(rule.rule_hash.encode("utf-8"))
-                if rule.alternates:
-                    # The same entity is reached under several names. Which name refers to
-                    # which entity is part of the program: re-binding one of them changes what
-                    # the code does even when the set of entities it reaches stays the same.
-                    symbols = {rule.symbol} | {r.symbol for r in rule.alternates}
-                    sha256.update(";".join(sorted(symbols)).encode("utf-8"))
+                # Which name refers to which entity is part of the program: re-binding names
+                # (an alias retargeted, two aliases exchanging their targets) changes what the
+                # code does even when the set of entities it reaches stays the same.
+                symbols = {rule.symbol} | {r.symbol for r in rule.alternates}
+                sha256.update(";".join(sorted(symbols)).encode("utf-8"))
         version = sha256.hexdigest()[0:16]
 
         return version
